@@ -304,15 +304,20 @@ class World(object):
         self.configured = set()
 
 
+CORE_METHODS = ('m_kwo', 'm_pos', 'm_fwd', 'm_deco', 'm_late')
+_MENU = {'methods': METHODS, 'fill': True}
+
+
 def ops(w):
+    methods = _MENU['methods']
     out = []
-    for m in METHODS:
+    for m in methods:
         out.append(('sigc', m))
         out.append(('bindsub', m))
     if not w.annotated:
         out.append(('annotate',))
     for i in sorted(w.inst):
-        for m in METHODS:
+        for m in methods:
             out.append(('sig', i, m))
             out.append(('isig', i, m))
             out.append(('call', i, m))
@@ -321,7 +326,7 @@ def ops(w):
                 out.append(('bind', i, m, True))
         if i not in w.configured:
             out.append(('configure', i))
-        if not inst_val(w, i):
+        if _MENU['fill'] and not inst_val(w, i):
             out.append(('fill', i))
         out.append(('drop', i))
     return out
@@ -491,7 +496,10 @@ def b_shard(tier, sh):
     """One shard = every history that starts with one given first operation (its own visited set: states reached from
     different first operations are explored again, which costs time, not coverage)."""
     st = runner.Stats()
-    depth = 3 if tier == 'quick' else 6
+    # sh[1]: 0 = the whole menu (depth 3 quick / 4 thorough), 1 = the core menu -- five methods, no fill -- to depth 6
+    core = len(sh) > 1 and sh[1] == 1
+    _MENU['methods'], _MENU['fill'] = (CORE_METHODS, False) if core else (METHODS, True)
+    depth = 6 if core else (3 if tier == 'quick' else 4)
     first_ops = ops(World())
     k = sh[0]
     if k < 0:
@@ -528,6 +536,11 @@ def run(tier, seed):
     fs = c12.functions(tier)
     nops = len(ops(World()))
     shards = [('B', k, 0) for k in range(-1, nops)] + [('A', i, min(len(fs), i + 4)) for i in range(0, len(fs), 4)]
+    if tier == 'thorough':
+        _MENU['methods'], _MENU['fill'] = CORE_METHODS, False
+        ncore = len(ops(World()))
+        _MENU['methods'], _MENU['fill'] = METHODS, True
+        shards = [('B', k, 1) for k in range(ncore)] + shards
     st = runner.run_shards(__name__, 'shard', tier, shards, seed)
     st.c['history_depth'] = max([d for d in st.notes if isinstance(d, int)] or [0])
     st.notes = []
@@ -547,7 +560,9 @@ def run(tier, seed):
                 'compares what the operation returns with the same operation on fresh objects, every drop checks the weak '
                 'reference after gc.collect(); every transition runs the real code',
         'bound': 'part A: functions as C12; steps: one kwoargs name, one posoargs name, autokwoargs, annotate in 3 forms; part B: '
-                 'depth %s, 7 decorated methods, 2 equal-comparing instances + subclass' % ('3 (quick)' if tier == 'quick' else '6'),
+                 '%s; 8 decorated methods, 2 equal-comparing falsy instances + subclass' % (
+                     'depth 3 over the whole operation menu (quick)' if tier == 'quick' else
+                     'depth 4 over the whole operation menu and depth 6 over the core menu (five methods, no fill operation)'),
     }
     assumptions = [
         'an application order in which some step raises ValueError is not admissible and is not compared',
